@@ -476,7 +476,13 @@ class GeneratedSalt(Part):
         import string
 
         chars = string.ascii_letters + string.digits
-        return [{"chars": chars[i:i + 8]} for i in range(0, len(chars), 8)]
+        out = [{"chars": chars[i:i + 8]} for i in range(0, len(chars), 8)]
+        # ... and with every non-empty subset of the features (each alone, too): whatever is on, the salt in
+        # use is reported
+        for pwd, ip, word, asn in itertools.product([False, True], repeat=4):
+            if (pwd or ip or word or asn) and not (pwd and ip and word and asn):
+                out.append({"chars": "Qk7", "features": {"pwd": pwd, "ip": ip, "word": word, "as": asn}})
+        return out
 
     def run(self, case):
         import random
@@ -496,8 +502,9 @@ class GeneratedSalt(Part):
 
             random.choice = scripted
             try:
+                target = dict(TARGET, **case.get("features", {}))
                 with seams.capture_logs(30) as recs:
-                    c = dict(TARGET, salt=None)
+                    c = dict(target, salt=None)
                     out1 = ns["run_cfg"](c, TEXT)
             finally:
                 random.choice = real_choice
@@ -510,7 +517,7 @@ class GeneratedSalt(Part):
             ok = False
             for cand in cands[:80]:
                 with seams.capture_logs():
-                    o2 = ns["run_cfg"](dict(TARGET, salt=cand), TEXT)
+                    o2 = ns["run_cfg"](dict(target, salt=cand), TEXT)
                 seams.restore_globals()
                 if o2 == out1:
                     ok = True
@@ -521,10 +528,10 @@ class GeneratedSalt(Part):
             res.out(ok)
             if not ok:
                 res.violation("generated-salt-not-reported-or-not-reproducing",
-                              "scripted first character %r: WARNING+ records %r; none of %d candidate strings "
-                              "reproduces the output" % (ch, [r[1][:80] for r in recs][:3], len(cands)),
-                              {"chars": ch})
-        res.samples.append({"first_characters": case["chars"]})
+                              "scripted first character %r, features %r: WARNING+ records %r; none of %d candidate strings "
+                              "reproduces the output" % (ch, case.get("features", "all"), [r[1][:80] for r in recs][:3], len(cands)),
+                              dict(case, chars=ch))
+        res.samples.append({"first_characters": case["chars"], "features": case.get("features", "all")})
         return res
 
 
